@@ -39,6 +39,7 @@ type c19Input struct {
 	Auth    int        `json:"auth"`
 	Faults  []c19Fault `json:"faults"`
 	TieFlip bool       `json:"tie_flip"`
+	PMTU    int        `json:"pmtu,omitempty"` // 0: 4000 (every flight travels in one datagram, as the discrete-event model assumes)
 }
 
 type c19Result struct {
@@ -118,6 +119,9 @@ func c19Run(in c19Input) (res c19Result, coqTrace []string) {
 	reg := tk.NewRegistry()
 	cc := tk.EPConfig{Suites: []uint16{in.Suite}, Ident: "cli", ServerName: "server.test", PMTU: 4000, Cache: "c", RetransMs: c19Init, MaxRetransMs: c19Max}
 	sc := tk.EPConfig{Ident: "srv", Auth: in.Auth, PMTU: 4000, Cache: "s", RetransMs: c19Init, MaxRetransMs: c19Max}
+	if in.PMTU != 0 {
+		cc.PMTU, sc.PMTU = in.PMTU, in.PMTU
+	}
 	if in.Resume { // an undisturbed first connection creates the session
 		dp := tk.NewDPair(tk.BuildDTLCP(cc, reg), tk.BuildDTLCP(sc, reg))
 		cr, sr, _ := dp.Handshake(10 * time.Second)
@@ -273,6 +277,12 @@ func c19AddCase(out *emit.Out, scenario string, in c19Input) {
 	if os.Getenv("HX_DEBUG") != "" {
 		fmt.Fprintf(os.Stderr, "== %s %+v: cok=%v sok=%v cerr=%q serr=%q agree=%v pong=%v ping=%v vms=%d exp=%d\n  %s\n", scenario, in, r.COk, r.SOk, r.CErr, r.SErr, r.Agree, r.Pong, r.Ping, r.VirtualMs, r.Expiries, strings.Join(r.Trace, "\n  "))
 	}
+	if strings.HasPrefix(scenario, "split-flight") {
+		// flights that span several datagrams are outside the discrete-event model: judged on the outcome alone
+		out.Add(emit.Case{Scenario: scenario, Trivial: len(in.Faults) == 0, Input: in, Direct: direct, Observed: r,
+			Coq: fmt.Sprintf("SplitFlightCase %s %s %s %s %s", emit.Bool(r.COk), emit.Bool(r.SOk), emit.Bool(r.Agree), emit.Bool(r.Pong), emit.Bool(r.Ping))})
+		return
+	}
 	ecdhe := in.Suite == 0xe011 || in.Suite == 0xe051
 	out.Add(emit.Case{Scenario: scenario, Trivial: len(in.Faults) == 0, Input: in, Direct: direct,
 		Observed: r,
@@ -317,6 +327,22 @@ func runC19(p params) error {
 	cfgs := []c19Input{{Suite: 0xe053}, {Suite: 0xe013, Auth: 4}, {Suite: 0xe053, Resume: true}, {Suite: 0xe051, Auth: 4}}
 	if p.tier == "thorough" {
 		cfgs = append(cfgs, c19Input{Suite: 0xe011, Auth: 4}, c19Input{Suite: 0xe013, Resume: true}, c19Input{Suite: 0xe013})
+	}
+	// a path MTU of 500 bytes: the certificate flights span several datagrams; none lost, then each one lost or delayed
+	for _, cfg := range []c19Input{{Suite: 0xe013, PMTU: 500}, {Suite: 0xe013, Auth: 4, PMTU: 500}} {
+		c19AddCase(out, "split-flight-fault-free", cfg)
+		for dir := 0; dir < 2; dir++ {
+			for idx := 0; idx < 8; idx++ {
+				for _, k := range []string{"drop", "delay"} {
+					if p.tier != "thorough" && k == "delay" && idx%2 == 1 {
+						continue
+					}
+					in := cfg
+					in.Faults = []c19Fault{{Dir: dir, Idx: idx, Kind: k, Ms: 150}}
+					c19AddCase(out, fmt.Sprintf("split-flight-%s-%s%d", k, []string{"c", "s"}[dir], idx), in)
+				}
+			}
+		}
 	}
 	singles := c19Singles(6)
 	for _, cfg := range cfgs {
